@@ -3943,3 +3943,103 @@ def own11_table_cache_key(P, R, L, rule="OWN-11"):
     R.check(rule, fn + "|one-key", ok and val_ok and file_ok, where(b),
             "cache lookup, file path and cache insertion all use the requested file number; the cached value is the table opened from that file",
             "get %d insert %d path %d open %d; key ok %s, value ok %s, file ok %s" % (len(gets), len(ins), len(paths), len(opens), ok, val_ok, file_ok))
+
+
+# ------------------------------------------------------------------------------------------- GRD-19 level-0 compaction inputs are closed under overlap
+def grd19_level0_inputs_closed(P, R, L, rule="GRD-19"):
+    """VersionSet::pick_compaction: whenever the picked level is 0 — for a size-triggered AND for a seek-triggered
+    compaction — the inputs are replaced by every level-0 file that overlaps them. Level-0 files overlap each other:
+    moving one of them down alone leaves an older overlapping file above it, which then shadows newer data."""
+    fn = "versioning::version_set::VersionSet::pick_compaction"
+    b = P.body(fn)
+    if b is None:
+        return R.missing_anchor(rule, fn)
+    R.analysed(b)
+    exp = [c for c in b.calls() if not b.is_cleanup(c.bb) and "get_overlapping_compaction_inputs" in (c.name or "")]
+    fin = [c for c in b.calls() if not b.is_cleanup(c.bb) and c.name == "compaction::manifest::CompactionManifest::finalize_compaction_inputs"]
+    # `level != 0` edges
+    nonzero = []
+    for c in comparisons(b):
+        lo, ro = c.lhs_origins(), c.rhs_origins()
+        for x, y in ((lo, ro), (ro, lo)):
+            if any(o.kind == "const" and o.name == "0" for o in y) and x and not any(o.kind == "const" for o in x) and \
+                    any(o.kind in ("call", "field", "param", "local") for o in x):
+                if c.op == "eq":
+                    nonzero += [(c.bb, t) for t in c.false_t]
+                elif c.op == "ne":
+                    nonzero += [(c.bb, t) for t in c.true_t]
+                elif c.op == "gt" and x is lo:
+                    nonzero += [(c.bb, t) for t in c.true_t]
+    targets = [c.bb for c in fin] or [r for r in b.return_blocks()]
+    # paths that return None before any inputs were picked do not count: start from the blocks that push an input file
+    pushes = [c for c in b.calls() if not b.is_cleanup(c.bb) and c.name == "std::vec::Vec::push"]
+    ok = bool(exp) and bool(nonzero) and bool(pushes) and bool(targets)
+    bad = []
+    for p_ in pushes:
+        if any(p_.bb in b.reachable(e.bb) for e in exp):
+            continue      # a push after the expansion (re-filling the list)
+        for t in targets:
+            if t in b.reachable(p_.bb) and not b.must_pass(t, through_nodes=[e.bb for e in exp], through_edges=nonzero, start=p_.target if p_.target is not None else p_.bb):
+                bad.append("from the input pushed at line %s the inputs are finalized without the level-0 expansion or a `level != 0` edge" % p_.line)
+    R.check(rule, fn + "|level0-inputs-expanded-for-every-trigger", ok and not bad, where(b),
+            "every path from picking an input file to finalize_compaction_inputs passes the level-0 overlap expansion or a `level != 0` edge",
+            "; ".join(sorted(set(bad))) or "expansion sites %d, non-zero-level edges %d, input pushes %d" % (len(exp), len(nonzero), len(pushes)))
+
+
+
+# ------------------------------------------------------------------------------------------- rule bundles
+# A rule is evaluated for every property it is a necessary condition of. The bundles below name the groups that travel
+# together; `R.once` keeps a rule that a property's module already ran from being evaluated (and reported) twice.
+def bundle_retention(P, R, L):
+    """what compaction and flushing keep, drop and where they put it (a resurrected or lost entry is wrong for every reader)"""
+    R.clause("RETAIN", "retention bundle: GRD-2 / ORD-7 (drop guards, oldest snapshot), GRD-10 (closed intervals), GRD-14 / GRD-19 (level-0 inputs "
+             "closed under overlap), GRD-17 (flush level), PAIR-9 (boundary inputs), ACC-1 (range accumulators), ORD-3 (install before drop)")
+    R.once(grd2_retention, P, R, L)
+    R.once(ord7_smallest_snapshot, P, R, L)
+    R.once(grd10_closed_intervals, P, R, L)
+    R.once(grd14_manual_inputs, P, R, L)
+    R.once(grd19_level0_inputs_closed, P, R, L)
+    R.once(grd17_memtable_output_level, P, R, L)
+    R.once(pair9_boundary_inputs, P, R, L)
+    R.once(pair9_levels, P, R, L)
+    R.once(acc1, P, R, L)
+    R.once(ord3_flush, P, R, L)
+
+
+def bundle_liveness(P, R, L):
+    """files a reader may still open are not deleted"""
+    R.clause("LIVE", "liveness bundle: GRD-5 (deletion guards incl. files of every linked version), PAIR-1 (version pins), cache eviction before delete")
+    from . import c11
+    R.once(c11.grd5, P, R, L)
+    R.once(c11.pair1, P, R, L)
+    R.once(cache_eviction, P, R, L)
+
+
+def bundle_readpath(P, R, L):
+    """how a lookup / scan finds the newest visible entry"""
+    R.clause("READ", "read-path bundle: KEY-1 (key order), VERD-1 (verdicts, tombstones stop the search), GRD-3 (sequence filter), GRD-13 (file search), "
+             "SRC-1 / SRC-2 (all sources, newest first), PAIR-5 (filter registration), OWN-10 / OWN-11 (cache keys)")
+    from . import c14
+    R.once(key1_internal_key_order, P, R, L)
+    R.once(verd1, P, R, L)
+    R.once(grd3_sequence_filter, P, R, L)
+    R.once(grd13_find_file_compares_internal_keys, P, R, L)
+    R.once(src1_iterator_sources, P, R, L)
+    R.once(src2_lookup_candidates, P, R, L)
+    R.once(c14.pair5, P, R, L)
+    R.once(own10_cache_partitions, P, R, L)
+    R.once(own11_table_cache_key, P, R, L)
+
+
+def bundle_recovery(P, R, L):
+    """what a reopen restores"""
+    R.clause("RECOVER", "recovery bundle: ORD-8c (recovered sequence), ROLE-4 (persisted counters), GRD-11 (block offset of a re-used log), "
+             "GRD-12 (only completely consumed logs are re-used), TS-1 / GRD-6 (log reader)")
+    R.once(ord8c_recovered_sequence, P, R, L)
+    R.once(role4_counters, P, R, L)
+    R.once(grd11_reopen_offset, P, R, L)
+    R.once(grd12_reuse_only_complete_logs, P, R, L)
+    R.once(grd12_cursor_counts_complete_reads, P, R, L)
+    R.once(grd12_fully_consumed_is_exact, P, R, L)
+    R.once(ts1, P, R, L)
+    R.once(grd6, P, R, L)
